@@ -187,7 +187,7 @@ func TestOracle(t *testing.T) {
 			keys = append(keys, k)
 		}
 	}
-	repr := []int16{3, 2, 10, 19, 32} // Metadata, ListOffsets, FindCoordinator (direct, unpinned), CreateTopics, DescribeConfigs
+	repr := []int16{3, 2, 10, 19, 32, 0} // Metadata, ListOffsets, FindCoordinator (direct, unpinned), CreateTopics, DescribeConfigs, Produce (key 0: once the client's test for "ApiVersions loaded")
 	evals, nontrivial, reconnects := 0, 0, 0
 	for ci, c := range cases {
 		ks := repr
